@@ -27,11 +27,12 @@ inline Plan Gen(uint64_t seed)
    p.push_back("cfg prop=C11 sockets=" + I(sockets) + " ownloop=" + I(ownloop) + " ownersel=" + I(((sockets)&&(cfg.oneIn(3))) ? 1 : 0) + " extras=" + I(extras) + thrc::SchedCfgStr(cfg));
    std::string s = "prog 0";
    const int pre = (int) wl.below(3); if (pre) s += " S" + I(pre);     // queued before the thread is started
+   if (wl.oneIn(4)) s += " P" + I(1 + wl.below(2));                     // replies queued (by the subclass) before the thread is started
    s += " START";
    const int cycles = wl.oneIn(4) ? 2 : 1;
    for (int c=0; c<cycles; c++)
    {
-      if (c > 0) {const int q = (int) wl.below(3); if (q) s += " S" + I(q); s += " START";}
+      if (c > 0) {const int q = (int) wl.below(3); if (q) s += " S" + I(q); if (wl.oneIn(4)) s += " P" + I(1 + wl.below(2)); s += " START";}
       const int nops = 1 + (int) wl.below(8);
       for (int i=0; i<nops; i++)
       {
@@ -64,6 +65,8 @@ struct Shared
    // "no lost wake-up" invariant (evaluated at every scheduling decision): once every send call has returned, a receiver that still has a Message queued is never asleep
    volatile int internalTid = -1; volatile bool armed = false;   // armed = StartInternalThread() has returned and shutdown has not been requested
    volatile int sendsInFlight = 0, repliesInFlight = 0; volatile uint32 sendsDone = 0, repliesDone = 0;
+   std::vector<uint32> expectedReplies;       // every reply handed to SendMessageToOwner(), in call order (= the order the owner must receive them in)
+   volatile int prePending = 0; uint32 preCount = 0;   // replies queued while the thread was not running: the owner's wake-up for them is due only once the new thread has passed its entry code
 };
 static Shared * g_sh = NULL;
 static std::string NoLostWakeup(std::string & cls)
@@ -86,16 +89,19 @@ public:
       _sh->insideLog.push_back(m()->what);
       thr::Yield();
       MessageRef r = GetMessageFromPool(REPLY_BASE + m()->what);
-      _sh->repliesInFlight++;
+      _sh->repliesInFlight++; _sh->expectedReplies.push_back(r()->what);
       if (SendMessageToOwner(r).IsError()) thr::ReportAndExit("reply_send_failed", "SendMessageToOwner failed");
       _sh->repliesDone++; _sh->repliesInFlight--;
       (void) numLeft;
       return B_NO_ERROR;
    }
+   // "a subclass decided to call SendMessageToOwner() in advance" (Thread.cpp): a reply queued while the internal thread is not running
+   status_t PreReply(uint32 w) {return SendMessageToOwner(GetMessageFromPool(w));}
    // the shape MessageTransceiverThread uses: its own event loop on the wake-up mechanism, with timed waits
    virtual void InternalThreadEntry()
    {
       _sh->internalTid = thr::Self();
+      _sh->repliesInFlight -= _sh->prePending; _sh->prePending = 0;   // Thread::InternalThreadEntryAux() has signalled the owner about replies queued before the start by now
       if (_ownLoop == 0) {Thread::InternalThreadEntry(); return;}
       if (_ownLoop == 2)
       {
@@ -151,6 +157,7 @@ inline void Exec(const Plan & plan, RunResult & res)
       SocketMultiplexer ownerSm;
       auto Send = [&](int sender, int k) {for (int i=0; i<k; i++) {const uint32 w = (uint32)(sender*100000) + sh.nextSeq[sender]++; sh.sendsInFlight++; if (t.SendMessageToInternalThread(GetMessageFromPool(w)).IsOK()) {sh.sentTo[sender].push_back(w); res.stats.inc("msgs_sent"); sh.sendsDone++; sh.sendsInFlight--;} else thr::ReportAndExit("send_failed", "SendMessageToInternalThread failed"); if (i+1 < k) thr::Yield();}};
       auto TotalSent = [&]() {size_t n = 0; for (auto & v : sh.sentTo) n += v.size(); return n;};
+      auto TotalOwed = [&]() {return TotalSent() + (size_t) sh.preCount;};   // replies the owner will eventually be owed
       auto GetReply = [&](uint64 wakeup) -> bool
       {
          MessageRef r; const status_t st = t.GetNextReplyFromInternalThread(r, wakeup);
@@ -173,14 +180,14 @@ inline void Exec(const Plan & plan, RunResult & res)
       auto SelectAndCollect = [&]()
       {
          while(GetReply(0)) {}
-         if (sh.replies.size() >= TotalSent()) return;
+         if (sh.replies.size() >= TotalOwed()) return;
          const int fd = t.GetOwnerWakeupSocket().GetFileDescriptor();
          if (fd < 0) thr::ReportAndExit("no_wakeup_socket", "GetOwnerWakeupSocket() is invalid while the internal thread is running");
          (void) ownerSm.RegisterSocketForReadReady(fd);
          if (ownerSm.WaitForEvents(MUSCLE_TIME_NEVER).IsError()) thr::ReportAndExit("select_failed", "SocketMultiplexer::WaitForEvents failed on the owner wake-up socket");
          if (ownerSm.IsSocketReadyForRead(fd)) res.stats.inc("owner_select_wakeups");
       };
-      auto Drain = [&]() {int guard = 0; while((sh.replies.size() < TotalSent())&&(guard++ < 10000)) {if (ownerSel) SelectAndCollect(); else (void) GetReply(MUSCLE_TIME_NEVER);}};
+      auto Drain = [&]() {int guard = 0; while((sh.replies.size() < TotalOwed())&&(guard++ < 10000)) {if (ownerSel) SelectAndCollect(); else (void) GetReply(MUSCLE_TIME_NEVER);}};
       auto Shutdown = [&](bool waitToo)
       {
          if (!running) return;
@@ -195,8 +202,17 @@ inline void Exec(const Plan & plan, RunResult & res)
          if (op == "Y") thr::Yield();
          else if (op == "START") {if (!running) {if (t.StartInternalThread().IsError()) thr::ReportAndExit("start_failed", "StartInternalThread failed"); running = true; sh.armed = true; sh.threadUp = true; res.stats.inc("starts"); if (TotalSent() > sh.insideLog.size()) res.stats.inc("p.started_with_queued_messages");}}
          else if ((op.size() > 1)&&(op[0] == 'S')&&(isdigit((unsigned char) op[1]))) Send(0, (int) ToI(op.substr(1)));
+         else if ((op.size() > 1)&&(op[0] == 'P')&&(isdigit((unsigned char) op[1])))
+         {
+            if (!running) for (int i=0; i<(int) ToI(op.substr(1)); i++)
+            {
+               const uint32 w = REPLY_BASE + 900000 + sh.preCount; sh.prePending++; sh.repliesInFlight++; sh.expectedReplies.push_back(w);
+               if (t.PreReply(w).IsError()) thr::ReportAndExit("reply_send_failed", "SendMessageToOwner failed while the internal thread was not running");
+               sh.preCount++; sh.repliesDone++; res.stats.inc("p.reply_queued_before_start");
+            }
+         }
          else if (op == "G0") (void) GetReply(0);
-         else if (op == "GN") {if ((running)&&(sh.replies.size() < TotalSent())) (void) GetReply(MUSCLE_TIME_NEVER);}   // waiting forever is only compliant when a reply is still owed
+         else if (op == "GN") {if ((running)&&(sh.replies.size() < TotalOwed())) (void) GetReply(MUSCLE_TIME_NEVER);}   // waiting forever is only compliant when a reply is still owed
          else if ((op.size() > 1)&&(op[0] == 'G')) (void) GetReply(thr::Now() + ToU(op.substr(1)));
          else if (op == "DRAIN") {if (running) {thr::WaitUntil([&]() {return sh.extrasRunning == 0;}); Drain();}}
          else if (op == "SHUT1") Shutdown(true);
@@ -217,8 +233,10 @@ inline void Exec(const Plan & plan, RunResult & res)
       }
       // every Message accepted while (or before) the thread ran and before its shutdown request must have been received
       for (int s=0; s<8; s++) if (next[s] != (uint32) sh.sentTo[s].size()) thr::ReportAndExit("message_lost", "sender " + I(s) + " handed over " + U(sh.sentTo[s].size()) + " Messages but the internal thread received " + U(next[s]));
-      if (sh.replies.size() != sh.insideLog.size()) thr::ReportAndExit((sh.replies.size() < sh.insideLog.size()) ? "reply_lost" : "reply_duplicated", "the internal thread sent " + U(sh.insideLog.size()) + " replies, the owner received " + U(sh.replies.size()));
-      for (size_t i=0; i<sh.replies.size(); i++) if (sh.replies[i] != REPLY_BASE + sh.insideLog[i]) thr::ReportAndExit("reply_reordered", "reply #" + U(i) + " is " + U(sh.replies[i]) + " but the " + U(i) + "th request handled was " + U(sh.insideLog[i]));
+      if (sh.prePending > 0) {sh.expectedReplies.resize(sh.expectedReplies.size() - (size_t) sh.prePending); sh.preCount -= (uint32) sh.prePending; sh.prePending = 0;}   // queued before a start that never came (minimised plans): nobody was owed them
+      if (sh.replies.size() != sh.expectedReplies.size()) thr::ReportAndExit((sh.replies.size() < sh.expectedReplies.size()) ? "reply_lost" : "reply_duplicated", "the internal thread (and its subclass before start) sent " + U(sh.expectedReplies.size()) + " replies, the owner received " + U(sh.replies.size()));
+      for (size_t i=0; i<sh.replies.size(); i++) if (sh.replies[i] != sh.expectedReplies[i]) thr::ReportAndExit("reply_reordered", "reply #" + U(i) + " is " + U(sh.replies[i]) + " but the " + U(i) + "th reply sent was " + U(sh.expectedReplies[i]));
+      if (sh.expectedReplies.size() != sh.insideLog.size() + sh.preCount) thr::ReportAndExit("reply_lost", "harness bookkeeping: " + U(sh.insideLog.size()) + " requests handled but " + U(sh.expectedReplies.size() - sh.preCount) + " echo replies sent");
    }
    thr::SetInvariant(NULL); g_sh = NULL;
    thrc::FillSchedStats(res);
